@@ -532,6 +532,123 @@ Theorem seq_consecutive_dropped s p x y : pc_of s p = None -> last_item s = Some
   seq_put p x s = Some (reject s x y).
 Proof. intros Hp Hl Hv. rewrite seq_put_spec by assumption. rewrite Hl, Hv, N.eqb_refl. reflexivity. Qed.
 
+(* ------------------------------------------------------------------ per-producer order *)
+
+Lemma pcs_step s l s' o q c : NoDup (keys (pcs s)) -> step s l = Some (s', o) -> In (q, c) (pcs s') ->
+  (exists c0, In (q, c0) (pcs s) /\ pc_item c0 = pc_item c) \/ l = PRead1 q (pc_item c).
+Proof.
+  intros K H Hin. destruct s as [q0 la m e ou d]. unfold step, pc_of, with_pcs in H. simpl in *.
+  destruct l as [p x|p|p|].
+  - destruct (alookup N.eqb p m) eqn:E; [discriminate|]. apply alookup_none in E.
+    inversion H; subst; clear H. simpl in Hin. rewrite aset_notin in Hin by assumption.
+    apply in_app_or in Hin as [Hin|[Hin|[]]]; [left; now exists c|]. inversion Hin; subst. right.
+    now destruct la.
+  - destruct (alookup N.eqb p m) as [[x|x]|] eqn:E; try discriminate.
+    destruct (locate _ _ _ K E) as (m1 & m2 & -> & K1 & K2).
+    assert (In (q, c) (m1 ++ (p, AtPut x) :: m2) ->
+            exists c0, In (q, c0) (m1 ++ (p, AtRead2 x) :: m2) /\ pc_item c0 = pc_item c) as Aux.
+    { intros I. apply in_app_or in I as [I|[I|I]].
+      - exists c. split; [apply in_or_app; now left|reflexivity].
+      - inversion I; subst. exists (AtRead2 x). split; [apply in_or_app; right; now left|reflexivity].
+      - exists c. split; [apply in_or_app; right; now right|reflexivity]. }
+    assert (In (q, c) (m1 ++ m2) ->
+            exists c0, In (q, c0) (m1 ++ (p, AtRead2 x) :: m2) /\ pc_item c0 = pc_item c) as Aux2.
+    { intros I. exists c. split; [|reflexivity]. apply in_app_or in I as [I|I]; apply in_or_app; [now left|right; now right]. }
+    left. destruct la as [y|].
+    + destruct (N.eqb (value x) (value y)); inversion H; subst; clear H; simpl in Hin.
+      * rewrite aremove_split in Hin by assumption. now apply Aux2.
+      * rewrite aset_split in Hin by assumption. now apply Aux.
+    + inversion H; subst; clear H; simpl in Hin. rewrite aset_split in Hin by assumption. now apply Aux.
+  - destruct (alookup N.eqb p m) as [[x|x]|] eqn:E; try discriminate.
+    destruct (locate _ _ _ K E) as (m1 & m2 & -> & K1 & K2).
+    inversion H; subst; clear H; simpl in Hin. rewrite aremove_split in Hin by assumption.
+    left. exists c. split; [|reflexivity]. apply in_app_or in Hin as [I|I]; apply in_or_app; [now left|right; now right].
+  - destruct q0; [discriminate|]. inversion H; subst; clear H. simpl in Hin. left. now exists c.
+Qed.
+
+(* an in-flight item was offered by the producer that holds it *)
+Lemma in_flight_owner tr : forall s q c, run init tr = Some s -> In (q, c) (pcs s) -> In (PRead1 q (pc_item c)) tr.
+Proof.
+  induction tr as [|l tr IH] using rev_ind; intros s q c H Hin.
+  - inversion H; subst. contradiction.
+  - apply run_snoc in H as (s0 & o & H0 & Hs).
+    pose proof (Inv_reachable s0 (ex_intro _ tr H0)) as [_ _ K].
+    destruct (pcs_step _ _ _ _ _ _ K Hs Hin) as [(c0 & I0 & E) | ->].
+    + apply in_or_app. left. rewrite <- E. eapply IH; eassumption.
+    + apply in_or_app. right. now left.
+Qed.
+
+Lemma two_offers tr q p x : In (PRead1 q x) tr -> In (PRead1 p x) tr -> q <> p -> ~ NoDup (map ident (offered tr)).
+Proof.
+  intros Hq Hp Hne ND. apply in_split in Hq as (a & b & ->).
+  rewrite offered_app in ND. change (offered (PRead1 q x :: b)) with (x :: offered b) in ND.
+  rewrite map_app in ND. simpl in ND. apply NoDup_remove_2 in ND. apply ND.
+  assert (In x (offered a) \/ In x (offered b)) as [I|I].
+  { apply in_app_or in Hp as [I|[I|I]].
+    - left. unfold offered. apply in_flat_map. exists (PRead1 p x). split; [assumption|now left].
+    - inversion I; congruence.
+    - right. unfold offered. apply in_flat_map. exists (PRead1 p x). split; [assumption|now left]. }
+  - apply in_or_app. left. now apply in_map.
+  - apply in_or_app. right. now apply in_map.
+Qed.
+
+Lemma dropped_mono s tr s' x : run s tr = Some s' -> In x (map fst (dropped s)) -> In x (map fst (dropped s')).
+Proof.
+  revert s; induction tr as [|l tr IH]; intros s H I; simpl in H.
+  - now inversion H; subst.
+  - destruct (step s l) as [[s1 o]|] eqn:E; [|discriminate]. apply (IH s1 H).
+    destruct (dropped_step _ _ _ _ E) as [->|(? & ? & ? & _ & _ & _ & _ & ->)]; [assumption|].
+    rewrite map_app. apply in_or_app. now left.
+Qed.
+
+(* Per-producer order: if producer p offered x before x' and both were appended, x was appended first. *)
+Theorem producer_order tr1 p x tr2 x' tr3 s :
+  run init (tr1 ++ PRead1 p x :: tr2 ++ PRead1 p x' :: tr3) = Some s ->
+  NoDup (map ident (offered (tr1 ++ PRead1 p x :: tr2 ++ PRead1 p x' :: tr3))) ->
+  In x (enq s) -> In x' (enq s) ->
+  exists l1 l2 l3, enq s = l1 ++ x :: l2 ++ x' :: l3.
+Proof.
+  intros H ND Hx Hx'.
+  set (pre := tr1 ++ PRead1 p x :: tr2) in *.
+  assert (Etr : tr1 ++ PRead1 p x :: tr2 ++ PRead1 p x' :: tr3 = pre ++ PRead1 p x' :: tr3).
+  { unfold pre. now rewrite <- app_assoc. }
+  rewrite Etr in *. clear Etr.
+  pose proof H as H'. rewrite run_app in H'. destruct (run init pre) as [s2|] eqn:H2; [|discriminate].
+  assert (NDpre : NoDup (map ident (offered pre))).
+  { rewrite offered_app, map_app in ND. eapply NoDup_app_remove_r, ND. }
+  assert (Opre : In x (offered pre)).
+  { unfold pre. rewrite offered_app. apply in_or_app. right. now left. }
+  assert (Lpre : In (PRead1 p x) pre).
+  { unfold pre. apply in_or_app. right. now left. }
+  assert (Oall : In x (offered (pre ++ PRead1 p x' :: tr3))).
+  { rewrite offered_app. apply in_or_app. now left. }
+  (* p is idle in s2 *)
+  assert (Hidle : pc_of s2 p = None).
+  { pose proof H' as H3. cbn [run] in H3. unfold step in H3. destruct (pc_of s2 p); [discriminate|reflexivity]. }
+  (* x is not in flight in s2 *)
+  assert (Hnp : ~ In x (pending s2)).
+  { unfold pending. intros I. apply in_map_iff in I as ([q c] & Ec & Iq). simpl in Ec. subst x.
+    pose proof (in_flight_owner _ _ _ _ H2 Iq) as Oq.
+    destruct (N.eq_dec q p) as [->|Hne].
+    - unfold pc_of in Hidle. apply alookup_none in Hidle. apply Hidle. unfold keys. apply in_map_iff. now exists (p, c).
+    - exact (two_offers _ _ _ _ Oq Lpre Hne NDpre). }
+  destruct (exactly_one _ _ x H2 NDpre Opre) as (W & _).
+  assert (In x (enq s2)) as He2.
+  { destruct W as [W|[W|W]]; [assumption| |contradiction]. exfalso.
+    pose proof (dropped_mono _ _ _ _ H' W) as Wd.
+    destruct (exactly_one _ _ x H ND Oall) as (_ & N1 & _). apply N1. now split. }
+  destruct (enq_mono _ _ _ H') as [l E].
+  assert (~ In x' (enq s2)) as Hn'.
+  { intros I. assert (In x' (offered pre)) as O'.
+    { pose proof (conservation _ _ H2) as P. apply Permutation_sym in P. eapply Permutation_in; [exact P|].
+      apply in_or_app. now left. }
+    rewrite offered_app, map_app in ND. change (offered (PRead1 p x' :: tr3)) with (x' :: offered tr3) in ND.
+    simpl in ND. apply NoDup_remove_2 in ND. apply ND. apply in_or_app. left. now apply in_map. }
+  rewrite E in Hx'. apply in_app_or in Hx' as [?|Hl]; [contradiction|].
+  apply in_split in He2 as (a & b & Ea). apply in_split in Hl as (c & d & El).
+  exists a, (b ++ c), d. rewrite E, Ea, El. now rewrite <- !app_assoc.
+Qed.
+
 (* ------------------------------------------------------------------ event equality *)
 
 Lemma ecls_eqb_eq a b : ecls_eqb a b = true <-> a = b.
